@@ -22,6 +22,13 @@
  * mode=mdayedge   FREQ=YEARLY and FREQ=MONTHLY with BYMONTHDAY values at the edge of what a month has (-31, -30, -29,
  *                 -28, 31, 30, 29 and mixtures: a negative day that is the 1st of some months only), without BYMONTH,
  *                 with BYMONTH=2 and BYMONTH=1,3,4; options: intervals=, anchors=, terms=quick|full.
+ * mode=longlist   FREQ=MONTHLY / FREQ=YEARLY (with and without BYMONTH) with ONE long value list: BYDAY lists of 11..21
+ *                 distinct ordinal entries (selections of {1..5,-1..-5} x {MO..SU}: positive, negative, mixed, strided,
+ *                 written ascending and descending), BYMONTHDAY / BYYEARDAY / BYWEEKNO(+BYDAY=MO) / BYSETPOS lists of
+ *                 11..16 entries.  The reference lists hold 8 values, so the expected set is put together from the
+ *                 reference's answers for the list cut into pieces of <= 8 values (a day / a position is selected by the
+ *                 list iff it is selected by one of its pieces), COUNT / UNTIL applied to the union afterwards.
+ *                 options: intervals=, anchors=, terms=quick|full.
  */
 #include "vdrv.h"
 #include "ref/icalio.h"
@@ -36,6 +43,64 @@ static int terms_full = 0;
 static int ckpt_pass = 1;	/* --opt ckpt=0 switches the write-out / read-again pass off */
 static int unsync = 0;		/* mode=unsync: DTSTART is given, not derived */
 static int bigstep = 0;		/* mode=bigstep: the window is counted in steps of the rule */
+
+/* mode=longlist: the rule's one long list cut into pieces of <= 8 values, each piece a complete rule without termination */
+#define LL_CAP	8192
+static struct {
+	int n;
+	rf_rule part[4];
+} ll;
+
+static int ll_cmp(const void *a, const void *b)
+{
+	const int64_t x = *(const int64_t*)a, y = *(const int64_t*)b;
+	return x < y ? -1 : x > y;
+}
+
+/* rf_eval(), or for a long-list rule the union of the pieces' sets with R's COUNT / UNTIL applied to the union */
+static int
+c01_eval(const rf_rule *r, rf_dt t0, int64_t tend, int64_t *out, int max, int *ambig, int *trunc)
+{
+	static int64_t u[4 * LL_CAP], tmp[LL_CAP];
+	int64_t horizon = INT64_MAX;
+	int nu = 0, n = 0, amb = 0, cut = 0;
+	/* the first CAP members of the union lie among the first CAP members of the pieces: a piece whose listing is
+	 * cut at CAP has CAP members up to its last one, and up to the earliest such point the union is complete */
+	int cap = r->count >= 0 && r->count < max ? r->count : max;
+
+	if (!ll.n) {
+		return rf_eval(r, t0, tend, out, max, ambig, trunc);
+	}
+	if (cap < 1) cap = 1;
+	if (cap > LL_CAP) cap = LL_CAP;
+	if (r->has_until && r->until < tend) tend = r->until;
+	for (int c = 0; c < ll.n; c++) {
+		rf_rule q = ll.part[c];
+		int a = 0, tr = 0, k;
+
+		q.count = -1, q.has_until = 0;
+		k = rf_eval(&q, t0, tend, tmp, cap, &a, &tr);
+		amb |= a;
+		if (tr && k && tmp[k - 1] < horizon) {
+			/* this piece's listing was cut: the union is complete up to there only */
+			horizon = tmp[k - 1];
+		}
+		memcpy(u + nu, tmp, sizeof(*tmp) * (size_t)k);
+		nu += k;
+	}
+	qsort(u, (size_t)nu, sizeof(*u), ll_cmp);
+	for (int i = 0; i < nu; i++) {
+		if (i && u[i] == u[i - 1]) continue;
+		if (r->has_until && u[i] > r->until) break;
+		if (r->count >= 0 && n >= r->count) break;
+		if (n >= max) break;
+		if (u[i] > horizon) { cut = 1; break; }
+		out[n++] = u[i];
+	}
+	if (ambig) *ambig = amb;
+	if (trunc) *trunc = n >= max || cut;
+	return n;
+}
 
 /* mode=bigstep: 400 steps of the rule, but not past 2095-01-01 */
 static int64_t
@@ -184,7 +249,7 @@ run_case(const struct rg_rule_s *g, const struct term_s *tm, rf_dt t0, const int
 	}
 	vd_shape("%s/%s/%s", g->shape, tm->name, t0.allday ? "date" : "datetime");
 
-	nref = rf_eval(&r, t0, tend, ref, MAXOCC, &ambig, &trunc);
+	nref = c01_eval(&r, t0, tend, ref, MAXOCC, &ambig, &trunc);
 	if (ambig) {
 		vd_count("skipped_bysetpos_ambiguous", 1);
 		return;
@@ -357,7 +422,7 @@ per_rule(const struct rg_rule_s *g, void *clo)
 		}
 		vd_beat();
 		/* derive a synchronised DTSTART: the first member at or after the anchor */
-		n = unsync ? 1 : rf_eval(&g->ref, an, bigstep ? bigstep_tend(g, rf_secs(an)) : rf_secs(an) + rg_window(g->freq), first, 1, &ambig, &trunc);
+		n = unsync ? 1 : c01_eval(&g->ref, an, bigstep ? bigstep_tend(g, rf_secs(an)) : rf_secs(an) + rg_window(g->freq), first, 1, &ambig, &trunc);
 		if (!n) {
 			/* empty inside the window: C09's business */
 			continue;
@@ -379,7 +444,7 @@ per_rule(const struct rg_rule_s *g, void *clo)
 		}
 		static int64_t unb[MAXOCC + 8];
 		/* the unbounded listing, for UNTIL placement; re-anchored at the derived DTSTART */
-		n = rf_eval(&g->ref, t0, case_tend(g, rf_secs(t0)), unb, 8, &ambig, &trunc);
+		n = c01_eval(&g->ref, t0, case_tend(g, rf_secs(t0)), unb, 8, &ambig, &trunc);
 		for (int k = 0; k < ntms; k++) {
 			if (unsync && tms[k].count) {
 				/* whether a DTSTART that is no member counts towards COUNT is open as well */
@@ -549,6 +614,149 @@ enumerate_mdayedge(const int *ivals, int nivals)
 	}
 }
 
+/* mode=longlist */
+static void
+ll_rule(int freq, int iv, const struct pv_s *pv, int npv, int li, const char *sel)
+{
+	struct rg_rule_s g;
+	const char *v = pv[li].val;
+	int n = 1;
+	size_t so;
+
+	for (const char *q = v; *q; q++) n += *q == ',';
+	mk_rule(&g, freq, iv, iv == 1 ? "1" : "N", pv, npv, NULL);
+	so = strlen(g.shape);
+	snprintf(g.shape + so, sizeof(g.shape) - so, "/long-%s:%s:%s", rg_key[pv[li].part] + 2, sel,
+		 n <= 12 ? "n-le12" : n <= 14 ? "n-13-14" : "n-ge15");
+	ll.n = 0;
+	while (*v && ll.n < 4) {
+		char piece[96];
+		size_t o = 0;
+		int k = 0;
+
+		while (*v && k < 8 && o + 1 < sizeof(piece)) {
+			if (*v == ',' && ++k == 8) break;
+			piece[o++] = *v++;
+		}
+		piece[o] = '\0';
+		if (*v == ',') v++;
+		ll.part[ll.n] = g.ref;
+		rg_apply(&ll.part[ll.n], pv[li].part, piece);
+		ll.n++;
+	}
+	per_rule(&g, NULL);
+	ll.n = 0;
+}
+
+/* write the N values IDX[0..N) (ascending or descending order of writing) */
+static void
+ll_join(char *buf, size_t bsz, char (*item)[8], const int *idx, int n, int desc)
+{
+	size_t o = 0;
+	for (int i = 0; i < n; i++) {
+		o += (size_t)snprintf(buf + o, bsz - o, "%s%s", i ? "," : "", item[idx[desc ? n - 1 - i : i]]);
+	}
+}
+
+static void
+enumerate_longlist(const int *ivals, int nivals)
+{
+	static const char *const wd[] = {"MO", "TU", "WE", "TH", "FR", "SA", "SU"};
+	static const char *const mon[] = {NULL, "2", "1,3,5,7,8,10,12"};
+	static const char *const selname[] = {"pos", "pos-wkdays", "neg", "mixed", "strided", "tail"};
+	static char menu[70][8];
+	char val[160];
+	int idx[32];
+
+	/* the BYDAY menu, ordinal-major: 1MO..1SU, 2MO.., 5SU, -1MO.., -5SU */
+	for (int o = 0; o < 10; o++) {
+		for (int w = 0; w < 7; w++) {
+			snprintf(menu[o * 7 + w], sizeof(*menu), "%d%s", o < 5 ? o + 1 : -(o - 4), wd[w]);
+		}
+	}
+	for (int f = RF_YEARLY; f <= RF_MONTHLY; f++) {
+		for (size_t m = 0; m < sizeof(mon) / sizeof(*mon); m++) {
+			for (int sel = 0; sel < 6; sel++) {
+				for (int n = 11; n <= 21; n++) {
+					for (int desc = 0; desc < 2; desc++) {
+						for (int i = 0; i < n; i++) {
+							switch (sel) {
+							case 0: idx[i] = i; break;			/* 1MO,1TU,..,1SU,2MO,.. */
+							case 1: idx[i] = i / 5 * 7 + i % 5; break;	/* 1MO..1FR,2MO..2FR,.. */
+							case 2: idx[i] = 35 + i; break;			/* -1MO,-1TU,.. */
+							case 3: idx[i] = i % 2 ? 35 + i / 2 : i / 2; break;	/* 1MO,-1MO,1TU,-1TU,.. */
+							case 4: idx[i] = i * 3 % 70; break;		/* 1MO,1TH,1SU,2WE,.. */
+							default: idx[i] = 70 - n + i; break;		/* ..,-5SA,-5SU */
+							}
+						}
+						ll_join(val, sizeof(val), menu, idx, n, desc);
+						for (int k = 0; k < nivals; k++) {
+							struct pv_s pv[2];
+							int np = 0;
+							if (mon[m]) pv[np].part = P_MON, pv[np].val = mon[m], np++;
+							pv[np].part = P_DAYORD, pv[np].val = val, np++;
+							ll_rule(f, ivals[k], pv, np, np - 1, selname[sel]);
+						}
+					}
+				}
+			}
+		}
+	}
+	/* numeric lists of 11..16 values: the values are A + B * i, signs per selection */
+	static const struct {
+		int freq;
+		int part;
+		int a, b;
+		const char *with_mon;
+		struct pv_s base;	/* a part that goes with it (-1: none) */
+	} num[] = {
+		{RF_MONTHLY, P_MDAY, 1, 1, NULL, {-1, NULL}},
+		{RF_MONTHLY, P_MDAY, 1, 2, NULL, {-1, NULL}},			/* 1,3,..,31 */
+		{RF_YEARLY, P_MDAY, 1, 1, NULL, {-1, NULL}},
+		{RF_YEARLY, P_MDAY, 1, 2, "1,3,5,7,8,10,12", {-1, NULL}},
+		{RF_YEARLY, P_YDAY, 1, 23, NULL, {-1, NULL}},			/* 1,24,..,346 */
+		{RF_YEARLY, P_YDAY, 50, 1, NULL, {-1, NULL}},			/* 50..65: around the end of February */
+		{RF_YEARLY, P_WK, 2, 1, NULL, {P_DAY, "MO"}},			/* weeks 2..17 */
+		{RF_YEARLY, P_WK, 3, 3, NULL, {P_DAY, "TU,TH"}},		/* weeks 3,6,..,48 */
+		{RF_MONTHLY, P_POS, 1, 1, NULL, {P_DAY, "MO,TU,WE,TH,FR,SA,SU"}},
+		{RF_MONTHLY, P_POS, 1, 2, NULL, {P_DAY, "MO,TU,WE,TH,FR,SA,SU"}},
+		{RF_YEARLY, P_POS, 1, 3, NULL, {P_DAY, "MO"}},			/* 1,4,..,46 of 52/53 Mondays */
+		{RF_YEARLY, P_POS, 1, 1, "1,3,5,7,8,10,12", {P_MDAY, "1,15,31"}},
+	};
+	static const char *const nsel[] = {"pos", "neg", "mixed"};
+	for (size_t q = 0; q < sizeof(num) / sizeof(*num); q++) {
+		for (int sel = 0; sel < 3; sel++) {
+			for (int n = 11; n <= 16; n++) {
+				for (int desc = 0; desc < 2; desc++) {
+					static char item[16][8];
+					for (int i = 0; i < n; i++) {
+						/* mixed: +v0, -v0, +v1, -v1, .. */
+						const int j = sel == 2 ? i / 2 : i;
+						const int v = num[q].a + num[q].b * j;
+						snprintf(item[i], sizeof(*item), "%d", sel == 1 || (sel == 2 && i % 2) ? -v : v);
+						idx[i] = i;
+					}
+					ll_join(val, sizeof(val), item, idx, n, desc);
+					for (int k = 0; k < nivals; k++) {
+						struct pv_s pv[3];
+						int np = 0, li;
+						/* parts in the grammar's order: MONTH, WEEKNO, YEARDAY, MONTHDAY, DAY, SETPOS */
+						if (num[q].with_mon) pv[np].part = P_MON, pv[np].val = num[q].with_mon, np++;
+						if (num[q].part != P_POS) {
+							li = np, pv[np].part = num[q].part, pv[np].val = val, np++;
+							if (num[q].base.val) pv[np++] = num[q].base;
+						} else {
+							pv[np++] = num[q].base;
+							li = np, pv[np].part = P_POS, pv[np].val = val, np++;
+						}
+						ll_rule(num[q].freq, ivals[k], pv, np, li, nsel[sel]);
+					}
+				}
+			}
+		}
+	}
+}
+
 static void
 enumerate(void)
 {
@@ -578,6 +786,9 @@ enumerate(void)
 		return;
 	} else if (!strcmp(vd_opt("mode", "grammar"), "mdayedge")) {
 		enumerate_mdayedge(ivals, c.nintervals);
+		return;
+	} else if (!strcmp(vd_opt("mode", "grammar"), "longlist")) {
+		enumerate_longlist(ivals, c.nintervals);
 		return;
 	}
 	rg_enumerate(&c, per_rule, NULL);
